@@ -13,7 +13,7 @@ PROPERTY = "C03"
 LEVEL = "exploration"
 NEED_EXT = True
 REQUIRED = ["refit.outputs", "refit.state", "same_seed.outputs", "global_seed_independence",
-            "refit.after_set_params", "refit.after_failed_fit", "refit.frames"]
+            "refit.after_set_params", "refit.after_failed_fit", "refit.frames", "two_instances"]
 RULE = ("fittable registered classes (23) x configurations x training-set pairs (A, B) differing in n, d, label set / "
         "vocabulary / categorical columns x {fit A, [query], fit B, fit A} x 3 seeds (thorough 12); thread-parallel "
         "configurations included; non-trivial = A and B differ in shape or label set; distinct = distinct (class, "
@@ -208,6 +208,28 @@ def run_case(case, ctx):
                                   "".join(hist), "; ".join(d[:3])), cfg=cfg)
             if _differ(A, B):
                 ctx.nontriv(spec.name, vi, hist, sub)
+        # ---- two instances: fitting the second one (other data) changes nothing of what the first one answers
+        cfg = {"class": spec.name, "variant": vi, "history": "e1.fit(A); e2.fit(B); e1 again", "sub": sub}
+        try:
+            e1, e2 = spec.make(vi), spec.make(vi)
+            numpy.random.seed(sub + 17)
+            spec.fit(e1, _copy(A))
+            QA = spec.query(numpy.random.RandomState(9), A)
+            o1, s1 = spec.outputs(e1, QA), state(e1)
+            numpy.random.seed(sub + 18)
+            spec.fit(e2, _copy(B))
+            spec.outputs(e2, spec.query(numpy.random.RandomState(9), B))
+            o1b, s1b = spec.outputs(e1, QA), state(e1)
+            ctx.hit("two_instances")
+            bad = [m for m in o1 if m not in o1b or not exact(o1[m], o1b[m])]
+            if bad:
+                ctx.violation(K + "two-instances/first-changed-by-second-fit", "fitting a second instance on other "
+                              "data changed %s of the first instance" % bad[0], cfg=cfg)
+            elif state_diff(s1b, s1):
+                ctx.violation(K + "two-instances/first-state-changed-by-second-fit", "fitting a second instance "
+                              "changed the fitted state of the first: %s" % "; ".join(state_diff(s1b, s1)[:2]), cfg=cfg)
+        except Exception as ex:
+            ctx.violation(K + "two-instances/raised/%s" % type(ex).__name__, str(ex)[:150], cfg=cfg)
         # ---- a hyper-parameter changed between two fits: nothing of the first configuration survives
         from vrt.props.c01 import alt_value
         keys = sorted(spec.alts)
